@@ -36,6 +36,7 @@ def run(rep):
     rep.guard(c04_narrow.b4, rep, w)   # a truncated jump operand makes the VM execute operand bytes as instructions
     import c17
     rep.guard(c17.l6, rep, w, 'C02')   # a stale throw site makes runtime_error index the wrong chunk's line table (host panic)
+    rep.guard(c17.l4, rep, w)          # ... and so does a raise that records no site while another exception's site is still recorded
     import c10
     rep.guard(c10.v2, rep, w)     # a debug-only assertion on data-dependent quantities is a host panic in the checked build
     rep.guard(c10.v5, rep, w, 'V5')    # overflow-checked arithmetic on program-chosen integers panics in the checked build
